@@ -14,6 +14,7 @@ SPEC = {
         "quick": {"enum_single_byte_mutants_v00": 14080, "enum_positions_v00": 55, "enum_flag_bytes_injected": 512,
                   "enum_one_byte_extensions": 1024, "roundtrips": 6000, "roundtrips_flags_other_bits": 3000,
                   "injects_with_tracestate": 3000, "injects_invalid_context": 1200,
+                  "roundtrip_tracestate_value_with_leading_blank": 1500,
                   "extract_must_accept": 10000, "extract_must_reject": 30000,
                   "extract_accept_higher_version": 3000, "extract_accept_uppercase_hex": 300,
                   "extract_accept_surrounding_ows": 1500, "extracts_random_bytes": 3000,
@@ -22,6 +23,7 @@ SPEC = {
         "thorough": {"enum_single_byte_mutants_v00": 14080 * 125, "enum_flag_bytes_injected": 256 * 300,
                      "enum_one_byte_extensions": 512 * 300, "roundtrips": 750000, "roundtrips_flags_other_bits": 450000,
                      "injects_with_tracestate": 350000, "injects_invalid_context": 150000,
+                     "roundtrip_tracestate_value_with_leading_blank": 150000,
                      "extract_must_accept": 1500000, "extract_must_reject": 4000000,
                      "extract_accept_higher_version": 750000, "extract_accept_surrounding_ows": 250000,
                      "extracts_random_bytes": 450000, "reject:version-ff": 125000, "reject:zero-trace-id": 100000,
